@@ -36,6 +36,18 @@ class Model:
         else:
             st.add(V("_capacity"), V("_capacity").scale(-1), V("bufferEnd") - V("bufferStart"))
 
+    def eval_special(self, ai, st, i):
+        """size() of this buffer or of a Buffer parameter is bufferEnd - bufferStart of that object"""
+        f = self.f
+        n = f.nodes[i]
+        if n["k"] == "CXXMemberCallExpr" and (n.get("callee") or "").endswith("Buffer::size"):
+            o = q.call_object(f, i)
+            pre = "this->" if (o is None or f.nodes[o]["k"] == "CXXThisExpr") else q.no_casts(f.r(o)) + "."
+            e_, s_ = st.env.get(pre + "bufferEnd"), st.env.get(pre + "bufferStart")
+            if e_ is not None and s_ is not None:
+                return e_ - s_
+        return None
+
     def call(self, ai, st, e):
         f = self.f
         n = f.nodes[e]
